@@ -1689,6 +1689,9 @@ static iwrc _fsm_deallocate(struct IWFS_FSM *f, off_t addr, off_t len) {
   if (addr & ((1ULL << fsm->bpow) - 1)) {
     return IWFS_ERROR_RANGE_NOT_ALIGNED;
   }
+  if (length_blk < 1) { // Less than one block: nothing to release, an empty extent must not reach the tree
+    return IW_ERROR_INVALID_ARGS;
+  }
   rc = _fsm_ctrl_wlock(fsm);
   RCRET(rc);
   if (  IW_RANGES_OVERLAP(offset_blk, offset_blk + length_blk, 0, (fsm->hdrlen >> fsm->bpow))
